@@ -80,7 +80,7 @@ extern int __ordinalp(const char *num, size_t off_suf, char **ep);
 /**
  * Append ordinal suffix to the most recently printed number in BUF,
  * eating away a leading 0. */
-extern size_t __ordtostr(char *buf, size_t bsz);
+extern size_t __ordtostr(char *buf, size_t bsz, size_t ndigits);
 
 /**
  * Take a string S, (case-insensitively) compare it to an array of strings ARR
